@@ -97,7 +97,16 @@ def finish(res, tier_, wall):
     cov = dict(res.coverage)
     cov.setdefault("samples", res.samples[:6] or [{"note": "no sample recorded"}])
     if res.level == "model_checking":
-        cov.setdefault("states", 0); cov.setdefault("transitions", 0); cov.setdefault("traces_validated_against_impl", 0)
+        cov.setdefault("traces_validated_against_impl", 0)
+        if not cov.get("states"):
+            # no design-level model-checking run serves this property: the TLC states are those of the
+            # trace-validation specification (one state per consumed event / record)
+            cov["states"] = cov.get("trace_validation_tlc_states", 0)
+            cov["transitions"] = cov.get("trace_validation_tlc_states", 0)
+            cov["states_are"] = "TLC states of the trace-validation specification only (no separate design-level model-checking run for this property)"
+        else:
+            cov["states_are"] = "distinct / generated states of the design-level model-checking runs listed under model_checking_runs; trace-validation states are counted separately"
+
     cov["drift_records"] = len(res.drift)
     cov["violations_found"] = [v["desc"] for v, _ in new[:20]]
     cov["known_findings_matched"] = sorted(shown)
@@ -281,3 +290,66 @@ def check_C12_full(tier_):
     res.assumptions.append("design-level reachability (MC_Reach: shortest witness per opcode, restricted constructor alphabet) is replayed through the forced-choice hook; a failed replay is drift, the verdict is the seed scan")
     return res
 CHECKS["C12"] = check_C12_full
+
+# ---------------------------------------------------------------------------
+# direct-call properties (TraceCalls.tla)
+def add_calls(res, st, prop):
+    seen = set()
+    for f in st["findings"]:
+        if f["kind"] == "V" and f["tag"] == prop:
+            r = f["record"]
+            what = r.get("m") or "mutator %s.%s" % (r.get("mut"), r.get("meth"))
+            sig = "%s:calls:%s:%s" % (prop, what, f["why"][:60])
+            if sig in seen: continue
+            seen.add(sig)
+            res.violation(sig, "%s" % f["why"][:400], {"stage": "calls", "record": r, "property": prop, "reason": f["why"]})
+    cov = st["coverage"]
+    res.coverage["direct_calls"] = cov
+    res.coverage["evaluations"] = cov["entropy_calls"] + cov["mutator_calls"]
+    res.coverage["trace_validation_tlc_states"] = res.coverage.get("trace_validation_tlc_states", 0) + cov["tlc_states"]
+    res.samples.extend(st["samples"][:4])
+
+def check_C15(tier_):
+    res = Result("C15")
+    tg = stages.tracegen_stage(tier_, tree_key())
+    add_tracegen(res, tg, "C15")
+    st = hist.calls_stage(tier_, tree_key())
+    add_calls(res, st, "C15")
+    res.coverage["traces_validated_against_impl"] += st["coverage"]["mutator_calls"]
+    add_mc(res, tier_, ["MC_Mut"])
+    res.assumptions = ["whole-generation evidence: hook notes which mutator changed which value and whether emitted bytes were rewritten; direct-call evidence: every mutator method called at rate 0.0 / 0.5 / 1.0 with PRNG and fuzzer-bytes sources incl. empty, all-0x00, all-0xff, NaN / -inf bit patterns",
+                       "MC_Mut abstracts the probability draw to classes; its gate is the repaired one (PinnedGate = FALSE)"]
+    return res
+
+def exploration_check(prop, rule):
+    def fn(tier_):
+        res = Result(prop)
+        res.level = "exploration"
+        st = hist.calls_stage(tier_, tree_key())
+        add_calls(res, st, prop)
+        cov = st["coverage"]
+        res.coverage["distinct_nontrivial"] = cov["distinct_entropy_cases"] if prop == "C18" else cov["distinct_mutation_results"]
+        res.coverage["evaluations"] = cov["entropy_calls"] if prop == "C18" else cov["mutator_calls"]
+        res.coverage["rule"] = rule
+        res.coverage["exhaustive"] = False
+        if prop == "C16":
+            tg = stages.tracegen_stage(tier_, tree_key())
+            res.coverage["whole_generations_with_mutators_validated"] = tg["coverage"]["runs"]
+        res.assumptions = ["TLC is used as a contract oracle over an enumerated case grid (no state machine to explore); the contracts are the TLA+ predicates of TraceCalls.tla"]
+        return res
+    return fn
+
+CHECKS["C15"] = check_C15
+CHECKS["C16"] = exploration_check("C16", "every Mutator method of the 7 mutators (memo-index and type-confusion in safe and unsafe mode) x boundary grid of i32/i64/f64/usize values (MIN, MIN+1, -1, 0, 1, MAX-1, MAX, every single-bit value) + sampled values + strings/byte strings (empty, 1 item, multi-byte UTF-8, 64 items) + 42 emitted-opcode shapes for the post-emission hook x entropy sources (empty, 0x00.., 0xff.., NaN/-inf patterns, random bytes, PRNG states) x rate {0, 0.5, 1}; a case is non-trivial when the mutator fired, distinct by (mutator, mode, method, input, output)")
+CHECKS["C18"] = exploration_check("C18", "choose_index(n) and gen_range(a,b) over the grid {0,1,2,3,94,95,255,256,257,65535,65536,65537,2^31-1,2^32,usize::MAX-1,usize::MAX,1000} x every fuzzer byte string of length <= 1, sampled (quick) or all (thorough) strings of length 2, sampled strings of length 3..16, PRNG states; gen_ascii_char, gen_bytes, scalar draws on every source; contracts for all, exact predicted result and bytes consumed for arguments below 2^24; non-trivial = n > 0, distinct by (method, arguments, source)")
+
+def check_C13(tier_):
+    res = Result("C13")
+    st = hist.front_stage(tier_, tree_key())
+    add_hist(res, st, "C13", "front", lambda f: (f["why"][:50], "%s" % f["why"][:500], {"record": f["record"]}))
+    add_mc(res, tier_, ["MC_Life"])
+    res.assumptions = ["chosen reading: --unsafe-mutations and --mutation-rate qualify the mutator list and are inert without --mutators (src/main.rs applies them together)",
+                       "cases without a seed have no library counterpart and are not generated",
+                       "Frontend!CliConfig / PyConfig is the specification of what the options denote; the driver's own mapping is checked against it by TLC (drift if different)"]
+    return res
+CHECKS["C13"] = check_C13
